@@ -113,7 +113,19 @@ def three_roll_cases(chk, rng):
                                         return chk.fail('three-gap', f"{name}: neighbouring faces are {dist} apart, gap is {gap}", data)
             if found < 3:
                 chk.notes.append(f"{name} gap {gap}: only {found} neighbouring face pairs identified")
-            icd, h = rp.inscribed_circle_diameter, rp.height
+            # the opening is one quantity in three guises: with the gap given (also an exact 0 of any numeric type) the other two are available
+            for zero in ((0, np.float64(0), np.int64(0)) if gap == 0.0 else ()):
+                rpz = ThreeRollPass(label="p", roll=Roll(groove=g, nominal_radius=0.2), gap=zero)
+                try:
+                    float(rpz.inscribed_circle_diameter), float(rpz.height)
+                except Exception as e:      # noqa
+                    return chk.fail('three-members', f"{name}: three-roll pass with gap {zero!r} ({type(zero).__name__}): reading the inscribed circle diameter and "
+                                    f"the height raises {type(e).__name__}: {str(e)[:100]}", dict(data, gap=0))
+            try:
+                icd, h = rp.inscribed_circle_diameter, rp.height
+            except Exception as e:      # noqa
+                return chk.fail('three-members', f"{name}: three-roll pass with gap {gap}: reading the inscribed circle diameter and the height raises "
+                                f"{type(e).__name__}: {str(e)[:100]}", data)
             rp2 = ThreeRollPass(label="p", roll=Roll(groove=g, nominal_radius=0.2), inscribed_circle_diameter=icd)
             if abs(rp2.gap - gap) > 1e-9 * scale:
                 return chk.fail('three-roundtrip-icd', f"{name}: inscribed circle diameter {icd} fed back gives gap {rp2.gap}, original {gap}", data)
